@@ -488,7 +488,8 @@ def operand_sets(shape):
     n_ = int(numpy.prod(shape)) if shape else 1
     fl = spec(("q0", "q1"), shape, [((1, 0), [0.5 * (i + 1) for i in range(n_)]), ((0, 0), [0.25 * (i % 3) for i in range(n_)]), ((0, 2), [-1.5 * (i % 2) for i in range(n_)])], "f8")
     cx = spec(("q1",), shape, [((1,), [(0.5 + 1j) * (i + 1) for i in range(n_)]), ((0,), [1j * (i % 2) for i in range(n_)])], "c16")
-    return [[a, d], [a, b], [a, u], [u, a], [a, fl], [fl, a], [fl, cx], [a, b, c]]
+    # a sequence holding ONE operand is a sequence too (numpy joins it like any other)
+    return [[a, d], [a, b], [a, u], [u, a], [a, fl], [fl, a], [fl, cx], [b], [u], [a, b, c]]
 
 
 def run_multi(case, R):
@@ -546,6 +547,8 @@ def run_multi(case, R):
                                                                                      for j, w in enumerate(vs)])[i])
                                         for i, v in enumerate(vs)],
                                tg, None, "i8" if sps[0]["d"] == "i8" else None, None, allow_superset=True)
+        if len(ps) < 2:
+            continue
         # where: every boolean mask for small sizes, broadcast masks otherwise
         a, b = ps[0], ps[1]
         ma, mb = ms[0], ms[1]
